@@ -182,13 +182,13 @@ type fedSys struct {
 }
 
 type fedConfig struct {
-	remotes   []string
-	legacy    bool
-	wildcard  bool // add a "*" entry to RemoteClusters
-	maxItems  int
-	maxAmp    int
-	timeout   time.Duration
-	tokens    *tokenTable
+	remotes  []string
+	legacy   bool
+	wildcard bool // add a "*" entry to RemoteClusters
+	maxItems int
+	maxAmp   int
+	timeout  time.Duration
+	tokens   *tokenTable
 }
 
 var transportMu sync.Mutex
@@ -330,15 +330,17 @@ func (c fakeConnector) Driver() driver.Driver                        { return fa
 
 type fakeDriver struct{}
 
-func (fakeDriver) Open(string) (driver.Conn, error) { return nil, fmt.Errorf("fake driver: use the connector") }
+func (fakeDriver) Open(string) (driver.Conn, error) {
+	return nil, fmt.Errorf("fake driver: use the connector")
+}
 
 type fakeConn struct{ t *tokenTable }
 
 func (c *fakeConn) Prepare(q string) (driver.Stmt, error) {
 	return nil, fmt.Errorf("fake db: prepare not supported: %s", q)
 }
-func (c *fakeConn) Close() error              { return nil }
-func (c *fakeConn) Begin() (driver.Tx, error) { return nil, fmt.Errorf("fake db: no transactions") }
+func (c *fakeConn) Close() error               { return nil }
+func (c *fakeConn) Begin() (driver.Tx, error)  { return nil, fmt.Errorf("fake db: no transactions") }
 func (c *fakeConn) Ping(context.Context) error { return nil }
 func (c *fakeConn) QueryContext(ctx context.Context, q string, args []driver.NamedValue) (driver.Rows, error) {
 	if !strings.Contains(q, "FROM api_client_authorizations") || len(args) != 1 {
